@@ -449,7 +449,7 @@ def scene_handover(draw):
     return {'cls': 'handover', 'rows': draw(order_rows(rows))}
 
 
-DEGENERATE_KINDS = ['single_hit', 'all_nan', 'all_vv', 'two_rows', 'identical', 'two_heights',
+DEGENERATE_KINDS = ['higher_types_only', 'higher_types_only', 'single_hit', 'all_nan', 'all_vv', 'two_rows', 'identical', 'two_heights',
                     'one_stamp_3hits', 'identical30', 'one_row_nan', 'two_heights_30', 'zero_height']
 
 
@@ -464,6 +464,10 @@ def scene_degenerate(draw, kinds=None):
         rows = [[c, d, None, 0] for d in dts[:-1]] + [[c, dts[-1], h, 1]]
         i = draw(st.integers(0, len(rows) - 1))
         rows[i], rows[-1] = rows[-1], rows[i]
+    elif kind == 'higher_types_only':
+        # measurements made of second / third hits only (no first hit: documented as warning-only); with an MSA
+        # below them every row is cropped away
+        rows = [[c, d, h + 50.0 * (i % 2), 2 + (i % 2)] for i, d in enumerate(dts[:draw(st.integers(1, 6))])]
     elif kind == 'all_nan':
         rows = [[c, d, None, 0] for d in dts]
     elif kind == 'one_row_nan':
